@@ -663,7 +663,41 @@ def ofC04 (e : Rig.C04.Entry) : Entry :=
 /-! ## line protocol -/
 open Lean Rig.P
 
+def chipOfNats (c : List Nat) : R ChipXY :=
+  match c with
+  | [x, y] => pure (x, y)
+  | _ => .error "chip"
+
+/-- leaf children `[[route|null, null], ...]` in front of `rest` -/
+def leafKids (ks : List Json) (rest : Kids) : R Kids :=
+  ks.foldrM (fun kj acc => do
+    match ← asArr kj with
+    | [rj, _] => pure (Kids.leaf (← asOpt rj asNat) acc)
+    | _ => .error "kid") rest
+
+/-- flat form of a tree that is one long chain (nesting thousands of JSON levels is beyond the harness'
+JSON encoder): `{"chain": [{"c": [x, y], "k": leaf children, "r": route to the next node}, ...]}`; the
+last node has no "r" -/
+def chainOfJson (items : List Json) : R Tree := do
+  let rec go : List Json → R (Option Tree)
+    | [] => pure none
+    | it :: rest => do
+      let below ← go rest
+      let chip ← chipOfNats (← nats it "c")
+      let r ← match it.getObjVal? "r" with
+        | .ok rj => asOpt rj asNat
+        | .error _ => pure none
+      let kids ← leafKids (← arr it "k") (match below with
+        | some t => Kids.sub r t .nil
+        | none => .nil)
+      pure (some (.node chip kids))
+  match ← go items with
+  | some t => pure t
+  | none => .error "empty chain"
+
 partial def treeOfJson (j : Json) : R Tree := do
+  if let .ok (.arr items) := j.getObjVal? "chain" then
+    return ← chainOfJson items.toList
   let c ← nats j "c"
   let chip ← match c with
     | [x, y] => pure (x, y)
